@@ -69,13 +69,18 @@ Section MapOpt.
     end.
 End MapOpt.
 
+Definition clear_caches (v : list (string * vsig)) : list (string * vsig) :=
+  map (fun p => (fst p, mkVsig (vs_body (snd p)) [])) v.
+
+(** one sample per distinct selected index, in list order; lookup table and
+    timestamps are built from the same list; virtual-signal caches are dropped *)
 Definition trace_sample (t : trace) (idx : list Z) : option trace :=
-  match map_opt (znth (tr_all_ts t)) idx with
+  let idx' := dedup_Z idx [] in
+  match map_opt (znth (tr_all_ts t)) idx' with
   | None => None
-  | Some new_ts =>
-      let ts := dedup_Z new_ts [] in
-      Some (mkTrace (tr_tid t) (tr_file t) 0 (zlen ts - 1) (tr_all_ts t) ts (Some idx)
-                    (tr_raw t) (tr_data t) (tr_scopes t) (tr_widths t) (tr_virt t))
+  | Some ts =>
+      Some (mkTrace (tr_tid t) (tr_file t) 0 (zlen ts - 1) (tr_all_ts t) ts (Some idx')
+                    (tr_raw t) (tr_data t) (tr_scopes t) (tr_widths t) (clear_caches (tr_virt t)))
   end.
 
 (** access_signal_data(name, index): raw value text.
